@@ -43,6 +43,11 @@ theorem wakeLoop_tab (fuel : Nat) : ∀ (db : DB) (k : Nat) (out : List Reply), 
   unfold ackDone
   cases classifyAck db hid ok <;> unfold applyAck <;> simp
 
+@[simp] theorem relockHold_tab (db : DB) (c : Cmd) (h : Nat) : (db.relockHold c h).tab = db.tab := by
+  unfold DB.relockHold; simp only []; split <;> split <;> simp [pushJ_tab, pushJ_cfg]
+@[simp] theorem dropWaiter_tab (db : DB) (hid : Nat) : (db.dropWaiter hid).tab = db.tab := by
+  unfold DB.dropWaiter; simp only []; split <;> simp
+
 theorem opLock_tab (db : DB) (c : Cmd) : (opLock db c).1.tab = db.tab := by
   unfold opLock
   cases classifyLock db c with
@@ -50,7 +55,7 @@ theorem opLock_tab (db : DB) (c : Cmd) : (opLock db c).1.tab = db.tab := by
   | ackWaiting h => rfl
   | relockRefused h => rfl
   | timeout => rfl
-  | relock h => unfold applyLock; simp only []; split <;> split <;> simp [pushJ_tab, pushJ_cfg]
+  | relock h => unfold applyLock; simp
   | grant => unfold applyLock; simp only []; split <;> simp
   | ackGrant => unfold applyLock; simp only []; split <;> simp
   | queue => unfold applyLock; simp
@@ -62,7 +67,7 @@ theorem opUnlock_tab (db : DB) (c : Cmd) : (opUnlock db c).1.tab = db.tab := by
 theorem fireTimeout_tab (db : DB) (hid : Nat) : (fireTimeout db hid).1.tab = db.tab := by
   unfold fireTimeout; simp only []; split
   · simp
-  · dsimp only; split <;> simp
+  · simp
 
 theorem fireExpire_tab (db : DB) (hid : Nat) : (fireExpire db hid).1.tab = db.tab := by
   unfold fireExpire; simp only []; split <;> simp
